@@ -73,3 +73,32 @@ claim('C17', 'proof',
       'Trusted: Lean kernel, py2lean, harness; Lean Float = platform IEEE double for the counter '
       'model; splitting of arcs/polylines is oracle-only.',
       'DESIGN.md 4 C17')
+
+claim('C13', 'proof',
+      'Lean 4 theorems on py2lean-generated to_dict/from_dict/to_array/from_array/__copy__/__eq__ compositions (14 classes) + exact round-trip oracle on all 21 types',
+      'The translator symbolically executes from_dict(to_dict(x)), from_array(to_array(x)), '
+      'duplicate() and x == y of the real classes; 196 theorems state that the round trips are '
+      'the identity on the defining slots (unit-vector fields up to re-normalisation, made '
+      'explicit), that duplicate() is the identity (unconditionally for Plane after the repair), '
+      'that == is exactly equality of the defining fields (reflexive, symmetric, transitive, '
+      'any differing coordinate gives False) and that equal keys hash equal for any hash '
+      'function. Composite types (polygons, polylines, meshes, faces, polyfaces), JSON text, '
+      'the dispatcher and optional fields are decided by a bit-exact oracle on the real code.',
+      'Trusted: Lean kernel, py2lean, harness. The key tuples used for hashing are hand-written '
+      'mirrors of __key (tied by the oracle); list-valued classes are oracle-only; a stub '
+      'ladybug.color module is used for mesh colours.',
+      'DESIGN.md 4 C13')
+claim('C14', 'proof',
+      'Lean 4 checked certificate over an effect table regenerated from the source (decide +kernel) + dynamic snapshot oracle across hash seeds and clocks',
+      'A static effect table of all ~1220 functions (direct parameter writes, call edges with '
+      'argument-to-parameter maps, self-slot stores, set/dict iterations, clock/PRNG uses) is '
+      'regenerated from the source; Lean proves (decide +kernel over the whole table) that the '
+      'certified mutation sets are closed under the call edges, hence contain the inductively '
+      'defined Mutates relation, that no public callable can mutate a parameter outside the '
+      'documented in-place updates, that every self-slot store is a guarded memoisation and '
+      'that no clock/PRNG/id value is used; every public callable is also executed with deep '
+      'value snapshots, repeated, and recomputed under 4 hash seeds and 2 patched clocks.',
+      'Trusted: Lean kernel; the syntactic effect extractor (over-approximating, name-based call '
+      'resolution, listed blind spots: captured objects, function-valued variables, lambdas) - '
+      'cross-checked by the dynamic oracle; CPython object semantics are not modelled.',
+      'DESIGN.md 4 C14')
